@@ -4,6 +4,13 @@ import itertools
 from harness import families as F
 
 
+def renumber(cfgs):
+    """unique ids after concatenating families (TLC keys its output by cfg.id)"""
+    for k, c in enumerate(cfgs):
+        c['id'] = k + 1
+    return cfgs
+
+
 class Ids:
     def __init__(self):
         self.n = 0
@@ -345,4 +352,135 @@ def fam_split_discount():
         out.append(F.make_cfg(ids(), T, a, DEN=DEN, wacc=1.0, cal='y', split={3}, refines=True, interval='730D', coupling='none'))
         a = [F.contract(T, 'n1', -2, 2, pr, disc=disc), F.storage(T, 'n1', size=2, cin=1, cout=1, coststore=1, disc=disc)]
         out.append(F.make_cfg(ids(), T, a, DEN=DEN, wacc=1.0, cal='y', split={3}, refines=True, interval='730D', coupling='storage_start_eq_end'))
+    return out
+
+
+# ---------------------------------------------------------------- time bookkeeping (C12)
+def fam_units(T=3):
+    """per-time quantities everywhere: capacities, inflow, holding cost (dt = 1 tick = 1h; realised in several main time units)"""
+    ids = Ids()
+    out = []
+    for st, pr, ec in itertools.product([dict(size=2, cin=1, cout=1, inflow=1, end=1, coststore=1), dict(size=3, cin=2, cout=1, start=1, end=1, eff=(1, 2), costin=1, coststore=2),
+                                         dict(size=2, cin=1, cout=2, maxhold=1)], ([1, 5, 2], [4, 1, 3]), (0, 1)):
+        a = [F.contract(T, 'n1', -2, 2, pr, ec=ec), F.storage(T, 'n1', **st), F.transport(T, 'n1', 'n2', 0, 1, eff=(1, 2), cost=1),
+             F.contract(T, 'n2', -1, 1, 3, takes=[dict(s=-1, e=2, vol=1, sense='max')], force_contract=True)]
+        out.append(F.make_cfg(ids(), T, a))
+    return out
+
+
+def fam_dst(T=3):
+    """grids whose steps differ in length: calendar days across the CET switches (24,23,24 / 24,25,24 hour ticks) and months"""
+    ids = Ids()
+    out = []
+    for dt, pr in itertools.product(([24, 23, 24], [24, 25, 24]), ([1, 5, 2], [4, 1, 3])):
+        a = [F.contract(T, 'n1', -1, 1, pr, q=12), F.storage(T, 'n1', size=30, cin=1, cout=1, coststore=1, q=12)]
+        out.append(F.make_cfg(ids(), T, a, dt=dt))
+        a = [F.contract(T, 'n1', -2, 2, pr, q=24, ec=1), F.contract(T, 'n1', 0, 1, 3, q=24, takes=[dict(s=0, e=sum(dt), vol=36, sense='min')], force_contract=True)]
+        out.append(F.make_cfg(ids(), T, a, dt=dt))
+        a = [F.contract(T, 'n1', -1, 1, pr, q=12), F.storage(T, 'n1', size=40, cin=1, cout=1, inflow=1, end=24, q=12)]
+        out.append(F.make_cfg(ids(), T, a, dt=dt))
+    a = [F.contract(3, 'n1', -1, 1, [1, 5, 2], q=14), F.storage(3, 'n1', size=40, cin=1, cout=1, coststore=1, q=14)]
+    out.append(F.make_cfg(ids(), 3, a, dt=[31, 28, 31], cal='month'))
+    return out
+
+
+# ---------------------------------------------------------------- coarse frequency / periodicity (C13)
+def _kinds_c13(T, extra, win=(1, None)):
+    """one asset of every kind accepting freq / periodicity, with one and two variables per step"""
+    ws, we = win
+    we = we or T + 1
+    pr = [1, 3, 2, 6, 3, 5, 4, 2][:T]
+    out = []
+    out.append(('contract1', [F.contract(T, 'n1', -2, 2, pr, ws=ws, we=we, **extra), slack(T, 'n1', [3, 1, 4, 2, 5, 1, 2, 3][:T], lo=-2, hi=2)]))
+    out.append(('contract2', [F.contract(T, 'n1', -1, 1, pr, ec=1, ws=ws, we=we, **extra), slack(T, 'n1', [3, 1, 4, 2, 5, 1, 2, 3][:T], lo=-2, hi=2, ec=0)]))
+    out.append(('transport', [slack(T, 'n1', [2, 2, 3, 3, 1, 1, 2, 2][:T], lo=-2, hi=2), F.transport(T, 'n1', 'n2', 0, 2, eff=(1, 2), cost=1, ws=ws, we=we, **extra),
+                              slack(T, 'n2', [3, 1, 6, 2, 5, 1, 2, 3][:T], lo=-2, hi=2)]))
+    out.append(('storage1', [slack(T, 'n1', pr, lo=-2, hi=2), F.storage(T, 'n1', size=4, cin=1, cout=1, ws=ws, we=we, **extra)]))
+    out.append(('storage2', [slack(T, 'n1', pr, lo=-2, hi=2), F.storage(T, 'n1', size=4, cin=2, cout=1, eff=(1, 2), costin=1, ws=ws, we=we, **extra)]))
+    out.append(('multi', [F.multi(T, ['n1', 'n2'], [(1, 1), (1, 2)], 0, 2, pr, ws=ws, we=we, **extra), slack(T, 'n1', [3, 1, 4, 2, 5, 1, 2, 3][:T], lo=-2, hi=2),
+                          slack(T, 'n2', [1, 2, 1, 2, 1, 2, 1, 2][:T], lo=-2, hi=2)]))
+    return out
+
+
+def fam_coarse(thorough=False):
+    ids = Ids()
+    out = []
+    for T, win in [(4, (1, None)), (4, (3, None)), (6, (1, 5))] if thorough else [(4, (1, None)), (4, (3, None))]:
+        group = [(s - 1) // 2 + 1 for s in range(1, T + 1)]       # coarse step of 2 fine steps, anchored at the grid start
+        for name, assets in _kinds_c13(T, dict(group=group, freq='2h'), win):
+            out.append(F.make_cfg(ids(), T, assets, variant=name, option='coarse'))
+    return out
+
+
+def fam_periodic(thorough=False):
+    ids = Ids()
+    out = []
+    T = 4
+    per = [1, 2, 1, 2]
+    for name, assets in _kinds_c13(T, dict(per=per, np_=2, periodicity='2h')):
+        out.append(F.make_cfg(ids(), T, assets, variant=name, option='periodic'))
+    T = 8
+    per = [1, 2, 1, 2, 3, 4, 3, 4]
+    ks = _kinds_c13(T, dict(per=per, np_=4, periodicity='2h', periodicity_duration='4h'))
+    for name, assets in (ks if thorough else [k for k in ks if k[0] in ('contract1', 'storage1', 'transport')]):
+        for a in assets:   # keep the T=8 enumeration small
+            if a['kind'] == 'contract' and not any(a['per']):
+                a['lo'] = [-1] * T
+                a['hi'] = [1] * T
+        out.append(F.make_cfg(ids(), T, assets, variant=name, option='periodic_duration'))
+    return out
+
+
+# ---------------------------------------------------------------- scaled and structured assets (C16)
+def fam_scaled(T=3, thorough=False):
+    """assets AT a scale s (capacities = base x s / norm), fixed cost rate `fix` per norm scale and tick"""
+    ids = Ids()
+    out = []
+    pr = [1, 5, 2][:T]
+    for (s, norm, fix), win in itertools.product([(1, 1, 0), (2, 1, 1), (3, 2, 2), (1, 2, 1)], [(1, T + 1), (2, T + 1)]):
+        m = s / norm
+        sc = dict(scale=(s, norm, fix), fixrate=s * fix, ws=win[0], we=win[1])
+
+        def cap(v):
+            x = v * m
+            assert x == int(x)
+            return int(x)
+        kinds = [('contract1', F.contract(T, 'n1', cap(-2), cap(2), pr, **sc)),
+                 ('contract2', F.contract(T, 'n1', cap(-2), cap(2), pr, ec=1, **sc)),
+                 ('transport', F.transport(T, 'n1', 'n2', 0, cap(2), eff=(1, 2), cost=1, **sc)),
+                 ('storage1', F.storage(T, 'n1', size=cap(2), cin=cap(2), cout=cap(2), **sc)),
+                 ('storage2', F.storage(T, 'n1', size=cap(4), cin=cap(2), cout=cap(2), start=cap(2), end=cap(2), eff=(1, 2), costin=1, inflow=cap(2) if win[0] == 1 else 0, **sc))]
+        for name, x in kinds:
+            rest = [slack(T, 'n1', [3, 1, 4][:T], lo=-6, hi=6)]
+            if name == 'transport':
+                rest.append(slack(T, 'n2', [2, 6, 1][:T], lo=-6, hi=6))
+            out.append(F.make_cfg(ids(), T, rest + [x], variant=name, scale=(s, norm, fix)))
+    return out
+
+
+def fam_free_scale(T=3):
+    """free scale in [smin, smax]; the value is linear in the scale (a margin contract against a wide slack), so the optimum is at an end point.
+    Returns groups of configurations (one per candidate scale) sharing 'group'."""
+    ids = Ids()
+    out = []
+    for g, (fix, pr) in enumerate(itertools.product((0, 1, 3), ([1, 1, 1], [1, 5, 2]))):
+        for s in (1, 2, 3):
+            x = F.contract(T, 'n1', 0, 2 * s, pr, scale=(s, 1, fix), fixrate=s * fix, scale_range=(1, 3))
+            out.append(F.make_cfg(ids(), T, [slack(T, 'n1', 3, lo=-8, hi=8), x], group=g, variant='free_scale', scale=(s, 1, fix)))
+    return out
+
+
+def fam_structured(T=3, thorough=False):
+    """n1 --tr1--> ni [storage] --tr2--> n2, contracts outside; the three middle assets may be wrapped in a StructuredAsset"""
+    ids = Ids()
+    out = []
+    for pr1, pr2, st, sw in itertools.product(([1, 4, 2], [3, 1, 1]), ([3, 2, 5], [2, 6, 1]), [dict(size=2, cin=1, cout=1), dict(size=2, cin=2, cout=1, eff=(1, 2), costin=1)],
+                                              (None, (2, T + 1), (1, T))):
+        ws, we = sw if sw else (1, T + 1)
+        assets = [slack(T, 'n1', pr1, lo=-2, hi=2),
+                  F.transport(T, 'n1', 'ni', 0, 2, cost=1, ws=ws, we=we, rws=1, rwe=T + 1),
+                  F.storage(T, 'ni', ws=max(ws, 1), we=min(we, T + 1), rws=0, rwe=T + 2, **st),
+                  F.transport(T, 'ni', 'n2', 0, 2, eff=(1, 2), ws=max(ws, 2), we=min(we, T + 1), rws=2, rwe=T + 3),
+                  slack(T, 'n2', pr2, lo=-2, hi=2)]
+        out.append(F.make_cfg(ids(), T, assets, struct=[1, 2, 3], struct_window=sw))
     return out
